@@ -6,8 +6,28 @@ Direct observation of what the model cannot exhibit (real threads, real hash see
      files through the cfg(typeshare_verif) hook TYPESHARE_VERIF_ORDER, single- and multi-file mode;
      the identity order is also compared byte for byte with the model;
  (b) repeated fresh processes without the hook under taskset with 1..16 CPUs on trees of 100-300
-     files: any two differing outputs are a failing history."""
-import concurrent.futures, hashlib, itertools, json, os, shutil, subprocess
+     files: any two differing outputs are a failing history;
+ (c) multi-crate workspaces with cross-crate imports in multi-file mode (-d), as repeated fresh processes (fresh
+     hash seeds) and under hook-chosen arrival orders. Whether a variation of the output reproduces the recorded
+     finding C06-ambiguous-imports or is a violation is decided by the GALLINA class of the workspace, the very
+     hypothesis of Props/C06.v C06_multi_hash_order_irrelevant / C06_multi_end_to_end:
+       Proofs.C06Multi.ws_ambiguity (collect arrivals) = Spec.C06MultiSpec.ws_imports_ambiguity on the type table,
+       annotated types and merged import sets the collector holds (class 1 one-name-imported-from-two-crates-that-
+       rename-it-differently, class 2 import-falls-back-to-one-of-several-crates-generating-the-name),
+     extracted (coq/Extract/parts/C06multi.ext) and evaluated by the driver command c06_ws_class
+     (ocaml/drv_c06multi.ml) on the `libdrive ast` of every file of the workspace: Model.parse_workspace under the
+     identity oracle, Model.collect, ws_ambiguity; the command also reports all_distinct_b (hypothesis all_distinct)
+     and the source files in the per-file class 3 (file_unambiguous = false, Spec.C06MultiSpec.file_import_ambiguous).
+     A variation with Gallina class None is a violation whatever else holds (class 3 is not a recorded finding; a
+     workspace the model cannot parse has no class and is itself reported). The Python function imports_ambiguity
+     below, which the generator evaluates on its own bookkeeping, is NOT the judge any more: it is computed next to
+     the Gallina class and the two are compared (counters class_agree_* / class_disagree_python=.._gallina=..,
+     a sample of disagreements in the notes). Known differences: Gallina counts a no-op #[serde(rename = "Item")]
+     on struct Item as a rename, and so does resolve_renamed (repeated runs of the real binary write Item or the
+     other crate's rename); the Python class sees only rust name -> generated name and misses it. import_workspace
+     plants that shape in about 8% of the workspaces, so the disagreement counter is exercised: with the Python
+     class as judge these would be false violations. Python has no per-file class (the generator makes no such file)."""
+import concurrent.futures, hashlib, itertools, json, os, pathlib, shutil, subprocess
 import vf, progs, back
 from vf import S, Lst
 
@@ -89,15 +109,55 @@ def imports_ambiguity(app_imports, defs, importer='app'):
     return None
 
 
+FILE_CLASS = 'file-imports-one-name-from-two-crates'      # class 3 (Spec.C06MultiSpec.file_import_ambiguous); NOT in the recorded finding
+
+
+def gallina_request(root, files, lang, asts):
+    """(c06_ws_class ..) for one workspace: path components + `libdrive ast` of every file, in sorted path order (ocaml/drv_c06multi.ml)."""
+    entries = []
+    for rel in sorted(files):
+        a = asts[files[rel]]
+        if 'ok' not in a:
+            return None
+        entries.append((list(pathlib.Path(root, rel).parts), a['ok'], a['tstrs']))
+    return f'(c06_ws_class {lang} {Lst(entries, lambda e: f"({Lst(e[0], S)} {e[1]} {e[2]})")})'
+
+
+def decode_gallina(m):
+    """answer of c06_ws_class: the classes the theorems of Props/C06.v are stated with, as the extracted Gallina code evaluates them"""
+    d = {k[0]: k[1] for k in m}
+    st = d['status']
+    return {'status': st if isinstance(st, str) else st[0],
+            'class': None if d['class'] == 'none' else d['class'][1],
+            'distinct': d['distinct'] == 'true',
+            'file_ambiguous': [str(pathlib.PurePosixPath(*[vf.unS(c) for c in p])) for p in d['file_ambiguous']],
+            'imports': {vf.unS(c): sorted([vf.unS(a), vf.unS(b)] for a, b in im) for c, im in d['imports'] if im},
+            'table': {vf.unS(c): sorted(vf.unS(n) for n in names) for c, names in d['table']}}
+
+
+def gallina_classes(roots, wss, langs):
+    """The Gallina classes of every workspace; None where the model could not be asked (then there is no class: nothing is silenced)."""
+    srcs = sorted({s for ws in wss for s in ws['files'].values()})
+    asts = dict(zip(srcs, vf.impl([{'cmd': 'ast', 'src': s} for s in srcs])))
+    reqs = [gallina_request(root, ws['files'], lang, asts) for root, ws, lang in zip(roots, wss, langs)]
+    answers = iter(vf.model([r for r in reqs if r is not None]))
+    return [decode_gallina(next(answers)) if r is not None else None for r in reqs]
+
+
 def import_workspace(rng):
     """2-3 library crates defining types drawn from a small pool (so equal names across crates are common, each with its own
     serde rename half of the time) and an `app` crate of 2-3 files whose use statements (explicit, grouped, glob) and fields refer to them."""
     libs = ['alpha', 'beta', 'gamma'][:rng.randint(2, 3)]
     files, defs = {}, {}
-    if rng.random() < 0.3:
+    shape = rng.random()
+    if shape < 0.3 or shape >= 0.92:
         # directed, otherwise clean shape: ONE name generated by two crates under the same generated name, imported explicitly from each of
         # them in two different files of the importing crate and used in both. Nothing is ambiguous for the unchanged code (each import
         # line names its own module), so every run must give the same bytes.
+        # Variant (shape >= 0.92), where the two classes are KNOWN to differ: crate a carries the no-op #[serde(rename = "N")] on struct N, crate b
+        # renames its N to TwinN. resolve_renamed finds a rename entry under either import, so this is class 1 for the Gallina class (and the
+        # output does vary); the Python bookkeeping (rust name -> generated name) cannot see a no-op rename and says unambiguous.
+        noop = shape >= 0.92
         a, b = rng.sample(libs, 2)
         n = rng.choice(POOL)
         ren = rng.choice([None, None, 'Shared' + n])
@@ -108,8 +168,10 @@ def import_workspace(rng):
             src = ''
             for m in sorted(names):
                 gen = (ren or m) if m == n else m
+                if noop and m == n:
+                    gen = m if c == a else 'Twin' + m
                 defs[c][m] = gen
-                attr = f'#[serde(rename = "{gen}")]\n' if gen != m else ''
+                attr = f'#[serde(rename = "{gen}")]\n' if gen != m or (noop and m == n) else ''
                 src += f'#[typeshare]\n{attr}pub struct {m} {{ pub {c}_{m.lower()}: u32 }}\n\n'
             files[f'{c}/src/lib.rs'] = src
         imports = set()
@@ -188,7 +250,11 @@ def run(chk):
     chk.rule = ('(a) seeded trees of k files (k = 2..5 quick, ..6 thorough) with 1-3 annotated items each (all kinds, consts where the back end has '
                 'them, distinct names; a few trees with two same-named structs), run under ALL k! arrival orders via the hook, rotating over the six '
                 'languages, single-file and multi-file (files spread over 2-3 crates); (b) trees of 100-300 files run repeatedly as fresh processes '
-                'without the hook under taskset with 1,2,4,8,16 CPUs. non-trivial = distinct (tree, arrival order) / distinct process runs')
+                'without the hook under taskset with 1,2,4,8,16 CPUs; (c) seeded workspaces of 2-3 library crates (types from a pool of four names, half of '
+                'them serde-renamed) and an importing crate of 2-3 files (explicit, grouped and glob imports), multi-file mode, as repeated fresh processes '
+                'and under hook-chosen arrival orders; a varying output is judged by the extracted Gallina class Proofs.C06Multi.ws_ambiguity of the workspace '
+                '(driver command c06_ws_class), the Python class is only compared with it. '
+                'non-trivial = distinct (tree, arrival order) / distinct process runs / distinct workspaces')
     chk.assumptions = ['arrival order is injected by the cfg(typeshare_verif) hook in cli/src/parse.rs (buffer, sort by smallest item name, permute)',
                        'real thread scheduling and HashMap seeds are sampled (part b), not enumerated']
     chk.prepare(need_cli=True)
@@ -332,26 +398,64 @@ def run(chk):
     per = {}
     for w, o in zip(wmeta, wouts):
         per.setdefault(w, []).append(o)
+    # THE JUDGE of part (c) is the Gallina class: Proofs.C06Multi.ws_ambiguity (= Spec.C06MultiSpec.ws_imports_ambiguity on what the
+    # collector holds), the very hypothesis of C06_multi_hash_order_irrelevant / C06_multi_end_to_end, extracted and run on the
+    # workspace's ASTs (c06_ws_class). The Python imports_ambiguity the generator computes from its own bookkeeping is only compared with it.
+    gall = gallina_classes([work / f'ws{w}' for w in range(nws)], wss, [ws['lang'] for ws in wss])
+    disagreements = []
     for w, ws in enumerate(wss):
         outs_w = per[w]
         chk.count('import_workspace_runs', len(outs_w))
         chk.evaluations += len(outs_w)
         chk.nontrivial.add(('ws', w))
-        amb = ws['ambiguity']
+        py_amb = ws['ambiguity']
+        g = gall[w]
+        g_ok = g is not None and g['status'] == 'ok'
+        amb = g['class'] if g_ok else None                       # classes 1 and 2: the recorded finding C06-ambiguous-imports
+        file_amb = g['file_ambiguous'] if g is not None else []   # class 3, per source file: not recorded, the generator never makes one
         chk.count('import_workspaces_' + (amb or 'unambiguous'))
+        chk.count('python_class_' + (py_amb or 'unambiguous'))
+        if not g_ok:
+            chk.count('gallina_class_unavailable')
+            chk.violation(f'ws{w}-class', {'correspondence': 'Model.MultiFile.parse_workspace (identity oracle) on a generated multi-crate workspace: the Gallina class '
+                                                             'of the workspace cannot be evaluated', 'workspace': ws['files'], 'lang': ws['lang'], 'model': g},
+                          'the extracted model does not parse a generated workspace, so its C06 input class is unknown (treated as: in no class)', no_input=True)
+        else:
+            if not g['distinct']:
+                chk.count('gallina_all_distinct_false')
+            if file_amb:
+                chk.count('gallina_' + FILE_CLASS)
+            if amb == py_amb:
+                chk.count('class_agree_python_gallina')
+                chk.count('class_agree_' + (amb or 'unambiguous'))
+            else:
+                chk.count('class_disagree_python_gallina')
+                chk.count(f'class_disagree_python={py_amb or "unambiguous"}_gallina={amb or "unambiguous"}')
+                disagreements.append({'workspace': ws['files'], 'python_class': py_amb, 'gallina_class': amb, 'merged_imports': g['imports'], 'type_table': g['table']})
         distinct = {json.dumps((rc, dg), sort_keys=True) for rc, dg, _ in outs_w}
-        payload = {'workspace': ws['files'], 'lang': ws['lang'], 'mode': 'multi-file (-d)', 'ambiguity_class': amb, 'runs': len(outs_w),
-                   'distinct_outputs': [json.loads(x) for x in sorted(distinct)][:3]}
+        payload = {'workspace': ws['files'], 'lang': ws['lang'], 'mode': 'multi-file (-d)', 'ambiguity_class': amb, 'python_class': py_amb,
+                   'gallina': g, 'runs': len(outs_w), 'distinct_outputs': [json.loads(x) for x in sorted(distinct)][:3]}
         if any(rc not in (0, 1) for rc, _, _ in outs_w):
             chk.count('crashed_runs (C07)')
         if len(distinct) > 1:
+            chk.count('varying_workspaces_' + (amb or 'unambiguous'))
             if amb is None:
+                extra_txt = ''
+                if file_amb:
+                    extra_txt = f'; source file(s) {file_amb} are in the per-file class {FILE_CLASS}, which is not a recorded finding'
+                elif py_amb is not None:
+                    extra_txt = f'; the Python class ({py_amb}) is not the judge and does not excuse it'
                 chk.violation(f'ws{w}', payload, f'{len(distinct)} different outputs over {len(outs_w)} runs of the same multi-crate workspace ({ws["lang"]}); '
-                              'no import of the workspace is ambiguous, so nothing may depend on the hash seed or arrival order')
+                              'the workspace is outside Spec.C06MultiSpec.ws_imports_ambiguity (no import is ambiguous), so nothing may depend on the '
+                              'hash seed or arrival order' + extra_txt)
             elif not chk.known('C06-ambiguous-imports', payload):
                 chk.violation(f'ws{w}', payload, 'output varies with the hash seed on ambiguous imports; not a recorded open finding')
         elif w < 2:
-            chk.sample({'workspace_files': sorted(ws['files']), 'lang': ws['lang'], 'runs': len(outs_w), 'distinct_outputs': 1, 'ambiguity_class': amb})
+            chk.sample({'workspace_files': sorted(ws['files']), 'lang': ws['lang'], 'runs': len(outs_w), 'distinct_outputs': 1, 'ambiguity_class': amb,
+                        'python_class': py_amb})
+    if disagreements:
+        chk.notes.append(f'part (c): Python imports_ambiguity and the extracted Gallina class (the judge) differ on {len(disagreements)} of {nws} workspaces; '
+                         'sample: ' + json.dumps(disagreements[:2])[:2500])
     shutil.rmtree(work, ignore_errors=True)
 
 
@@ -359,4 +463,8 @@ def replay(chk, path):
     chk.prepare(need_cli=True)
     d = json.load(open(path))
     print(json.dumps({k: v for k, v in d.items() if k != 'files'}, indent=1)[:3000])
+    if isinstance(d.get('workspace'), dict) and d.get('lang'):
+        # part (c): re-evaluate the judge (extracted Gallina class) and the Python bookkeeping class recorded with the case
+        g = gallina_classes([pathlib.Path('/ws')], [{'files': d['workspace']}], [d['lang']])[0]
+        print('gallina class now:', json.dumps(g), ' recorded:', d.get('ambiguity_class'), ' python class recorded:', d.get('python_class'))
     return 0
